@@ -417,6 +417,22 @@ inline double bits_f64(uint64_t b)
 
 inline uint64_t gen_float_bits(Rng &r, Scal s, ValMode mode)
 {
+    if (!scal_is_float(s)) {
+        // integer-valued layers (constant<In, intN>, identity<intN>): small values, extremes, raw bits
+        uint64_t mask = scal_size(s) == 4 ? 0xFFFFFFFFull : ~0ull;
+        switch (mode == VAL_SMALLINT ? 0 : r.below(4)) {
+        case 0:
+            return (uint64_t)(int64_t)r.range(-9, 9) & mask;
+        case 1:
+            return (uint64_t)(int64_t)r.range(-1000000, 1000000) & mask;
+        case 2: {
+            static const uint64_t tab[] = {0, 1, 0x7FFFFFFFull, 0x80000000ull, 0xFFFFFFFFull, 0x3F800000ull, 0x40400000ull, 0x7FC00000ull};
+            return tab[r.below(8)] & mask;
+        }
+        default:
+            return r.next() & mask;
+        }
+    }
     bool f32 = (s == SC_F32);
     if (mode == VAL_SMALLINT) {
         double v = (double)r.range(-9, 9);
